@@ -18,8 +18,9 @@ import sys
 from pathlib import Path
 from typing import Any, Dict, List, Optional, Tuple
 
+import common     # (also in the worker process: run_impl uses its harness-fault helpers)
+
 if __name__ != "__main__":
-    import common
     import tr_c18
     from common import Ctx, hx, unhx, run_model
 
@@ -355,8 +356,8 @@ class forced_order:
         key = _order_key(self.order, self.oseed)
         real = self.real
 
-        def patched(path="."):
-            with real(path) as it:
+        def patched(path=".", *a, **k):
+            with real(path, *a, **k) as it:
                 ents = list(it)
             ents.sort(key=lambda e: key(path, e.name))
             return _Scan(ents)
@@ -440,14 +441,15 @@ def run_impl(case: Dict[str, Any], casedir: str, mode: str) -> Dict[str, Any]:
     out: Dict[str, Any] = {}
 
     class WalkOnly(SourceRepository):
-        def _find_all_distributions(self, excluded_paths):  # the walk alone, real __init__
-            self._excl_abs = list(excluded_paths)
+        def _find_all_distributions(self, *a, **k):  # the walk alone, real __init__
+            self._excl_abs = list(common.arg_of(SourceRepository._find_all_distributions, (self,) + a, k, "excluded_paths", pos=1, default=()))
 
     def candidates(par: int) -> List[Any]:
         try:
             r = SourceRepository(base, excluded_paths=args, marker_files=case["markers"], parallelism=par)
             return ["OK", [rel(c.filename) for c in r.get_candidates(None)], [rel(p) for p in r._find_later]]
         except BaseException as ex:  # noqa
+            common.reraise_harness_fault(ex)     # forced_order's scandir / the locked wrapper are the harness's
             return ["EXC", type(ex).__name__, []]
 
     with forced_order(case["order"], case["oseed"]):
@@ -464,9 +466,9 @@ def run_impl(case: Dict[str, Any], casedir: str, mode: str) -> Dict[str, Any]:
                 lock = threading.Lock()
                 real_em = SourceRepository._extract_metadata
 
-                def locked_em(self, allow_setup_py, source_dir):
+                def locked_em(self, *a, **k):     # forwards the call as the code spelled it
                     with lock:
-                        return real_em(self, allow_setup_py, source_dir)
+                        return real_em(self, *a, **k)
                 SourceRepository._extract_metadata = locked_em
             try:
                 out["cand4"] = candidates(4)
